@@ -367,3 +367,8 @@ def _analysis_intensities(ct, tier, seed):
 
 contract('C16.runtime.analysis_intensities', ['optiland/analysis/ray_fan.py:RayFan._generate_data', 'optiland/analysis/spot_diagram.py:SpotDiagram._generate_field_data'],
          ['C16', 'C12'], custom=_analysis_intensities)(lambda c: None)
+
+
+# concrete inputs found by the defect-hunting sub-agents (bounded replay, see contracts/hunt.py)
+from . import hunt as _hunt  # noqa: E402
+_hunt.register('C16')
